@@ -9,9 +9,14 @@ META = {
                  "locality from the extension lemma, containment and order from the suffix lemma, line/column bookkeeping of "
                  "Reader.getc as a function of the consumed prefix; refutation witnesses for #^, synthesized heads and f-string "
                  "parts; position-exact model-vs-implementation differential run; property oracle on hy.read_many",
-    "level_text": "see coq/Props/C21.v; every node of every generated multi-line program is checked on the real reader "
-                  "(region re-read, containment, order) and the model's positions are compared with the implementation's "
-                  "start/end line/column at every node on every run.",
+    "level_text": "Theorems (coq/Props/C21.v), for every text and every oracle record with fill_pos = At, no size bound: "
+                  "C21_child_within_parent_and_order (every recorded region lies in the source, every child region within its "
+                  "parent's, the items of every sequence strictly in source order -- except the annotate sugar, proved to be the "
+                  "only exception, and f-string parts, about which nothing is claimed), C21_positions_invariant (all reader "
+                  "modes), C21_getc_invariant and C21_linecol_monotone (Reader.getc's line/column rule, constants regenerated), "
+                  "C21_region_locality_partial (a form's positioned model depends only on its own text).  C21_full (the recorded "
+                  "region reads back to an equal model) is stated, not proved; it is evaluated on every node of every generated "
+                  "program, and the model's positions are compared with the implementation's at every node on every run.",
     "level_note": "Trusted: as C18/C20.  Positions in the model are remaining-input lengths; their translation to "
                   "(line, column) follows Reader.getc and is compared node by node with the implementation.",
 }
@@ -89,7 +94,7 @@ def run(chk):
     def how(t):
         return "PYTHONPATH=%s python -c 'import hy; m = list(hy.read_many(%r)); ...start_line/start_column/end_line/end_column'" % (vlib.REPO, t)
 
-    n_prog = 30000 if thorough else 2500
+    n_prog = 30000 if thorough else 4000
     for i in range(n_prog):
         p = gen.program()
         text, _r = rc.render(p)
